@@ -15,6 +15,11 @@ def _check(solver, timeout_ms):
     STATS['queries'] += 1; STATS['solver_s'] += dt
     return r, dt
 
+def check(solver):
+    """solver.check() with query/time accounting (for the few direct z3.Solver uses outside prove)"""
+    t0 = time.time(); r = solver.check(); STATS['queries'] += 1; STATS['solver_s'] += time.time() - t0
+    return r
+
 def cvc5_check(solver, tlimit=30):
     """cross-check an unsat verdict with cvc5 on the exported SMT-LIB2 (linear queries only); returns 'unsat'/'sat'/'unknown'"""
     txt = '(set-logic ALL)\n' + solver.to_smt2()
